@@ -14,7 +14,7 @@ _NOTE = ("Trusted base: TLC; harness/gamma.py (writer) and harness/alpha.py (ind
          "pickled arguments/results; bounds of the model instances as listed in the evidence file.")
 
 REG["C05"] = {
-    "technique": "TLC model checking of Colander.tla (refinement of StrainSpec over all layouts/variable lists/limits/pool schedules) + replay of every TLC behaviour into the real Colander with token-exact comparison via an independent parser",
+    "technique": "TLC model checking of Colander.tla (refinement of StrainSpec over all layouts/variable lists/limits/pool schedules) + replay of every TLC behaviour into the real Colander with token-exact comparison via an independent parser + trace validation at scale: histories of real operations on large generated inputs and repository assets judged by spec/trace/OpTrace.tla with the same requirement operator",
     "level_text": ("Exhaustive within bounds: every input layout (<=3 boxes/level over <=3 files in every on-disk order, <=2 levels), "
                    "every ordered variable list incl. unknown names and 'all', every level limit and every pool completion order is "
                    "model-checked against the requirement operator and replayed into the real code in 2D and 3D with bit-exact "
@@ -23,14 +23,14 @@ REG["C05"] = {
 }
 
 REG["C01"] = {
-    "technique": "TLC model checking of Reader.tla/MC_C01.tla (ImplRead refines ReadSpec for every layout x field selector x level x box selector) + replay of every emitted scenario into the real indexing interface, arrays mapped back to tokens by digest",
+    "technique": "TLC model checking of Reader.tla/MC_C01.tla (ImplRead refines ReadSpec for every layout x field selector x level x box selector) + replay of every emitted scenario into the real indexing interface, arrays mapped back to tokens by digest + trace validation at scale: histories of real operations on large generated inputs and repository assets judged by spec/trace/OpTrace.tla with the same requirement operator",
     "level_text": ("Exhaustive within bounds over selector forms (names, ints incl. negative/too large, ascending index and name lists, every non-empty forward slice, "
                    "box ints, numpy ints, slices, lists, masks of right and wrong length) x layouts (<=3 boxes over <=3 files, every disk order) x levels; "
                    "each scenario is executed on the real reader in 2D/3D with wild (NaN/inf/denormal) and tame payloads and compared token-exactly, shapes included."),
     "level_note": _NOTE,
 }
 REG["C15"] = {
-    "technique": "TLC model checking of MC_C01.tla in iteration mode (one imap task per file, every start/finish interleaving, IterRefines: bag equality + exactly-once) + replay of each behaviour with the scheduled pool; stream.iter(bsel) replayed against ReadSpec",
+    "technique": "TLC model checking of MC_C01.tla in iteration mode (one imap task per file, every start/finish interleaving, IterRefines: bag equality + exactly-once) + replay of each behaviour with the scheduled pool; stream.iter(bsel) replayed against ReadSpec + trace validation at scale: histories of real operations on large generated inputs and repository assets judged by spec/trace/OpTrace.tla with the same requirement operator",
     "level_text": ("Every completion order of the per-file read tasks for <=4 boxes over <=3 files and every field selector form is explored by TLC and "
                    "replayed into the real iterator (termination guarded by a yield budget); the on-demand iterator is replayed for all slice/list/mask selections."),
     "level_note": _NOTE,
@@ -43,7 +43,7 @@ REG["C02"] = {
     "level_note": _NOTE,
 }
 
-_TASTE = ("TLC model checking of Taste.tla/MC_Taste.tla (validator steps over a unit-level byte model; Corrupt actions for 17 kinds at every site, "
+_TASTE = ("TLC model checking of Taste.tla/MC_Taste.tla (validator steps over a unit-level byte model; Corrupt actions for 19 kinds (incl. sub-unit header cuts / pads) at every site, "
           "singly and in pairs) + byte-exact concretisation of every emitted state judged by the real Taster")
 REG["C03"] = {
     "technique": _TASTE + "; invariant AcceptsWellFormed over all 16 option sets x limits x modes",
@@ -67,7 +67,7 @@ REG["C20"] = {
 }
 
 REG["C06"] = {
-    "technique": "TLC model checking of Combine.tla (validation, mode choice, three worker kinds, gather through map_bfile_offsets, header rewrite; refinement of CombineSpec on layout-free Content) + replay of every behaviour into the real combine() with token-exact comparison; refusal checked with an audit hook for 'nothing written'",
+    "technique": "TLC model checking of Combine.tla (validation, mode choice, three worker kinds, gather through map_bfile_offsets, header rewrite; refinement of CombineSpec on layout-free Content) + replay of every behaviour into the real combine() with token-exact comparison; refusal checked with an audit hook for 'nothing written' + trace validation at scale: histories of real operations on large generated inputs and repository assets judged by spec/trace/OpTrace.tla with the same requirement operator",
     "level_text": ("Every pair of independently chosen layouts (<=3 boxes over <=3 files in every on-disk order, 1-2 levels) x field selections (None, lists, with unknown / duplicate names, "
                    "list and string argument forms) x pool completion orders, and mismatched pairs (fewer boxes, shifted box, fewer levels) are model-checked and replayed; "
                    "the real validator must accept each output; refused runs must leave no file-system mutation."),
@@ -75,7 +75,7 @@ REG["C06"] = {
 }
 
 REG["C11"] = {
-    "technique": "TLC model checking of Chef.tla (sequential knives, offset-sorted box map, header writers, serial/parallel with all completion orders; refinement of CookSpec as per-box sets of (name, component) and extrema rows) + replay into the real Chef with user, callable, solution-array and built-in (HRR, ENT, SRi, SDi, RRi) recipes; recipe symbols interpreted independently (numpy bit-exact / scalar cantera rtol 1e-9)",
+    "technique": "TLC model checking of Chef.tla (sequential knives, offset-sorted box map, header writers, serial/parallel with all completion orders; refinement of CookSpec as per-box sets of (name, component) and extrema rows) + replay into the real Chef with user, callable, solution-array and built-in (HRR, ENT, SRi, SDi, RRi) recipes; recipe symbols interpreted independently (numpy bit-exact / scalar cantera rtol 1e-9) + trace validation at scale: histories of real operations on large generated inputs and repository assets judged by spec/trace/OpTrace.tla with the same requirement operator",
     "level_text": ("All layouts of <=3 boxes over <=3 files (every disk order), 1-2 levels, 1- and 2-component recipes, kept lists (none, one, two, reordered, with unknown), serial and parallel with every "
                    "completion order are model-checked and replayed; every written component is identified (kept: by digest, new: by independent evaluation) under the name the header gives it, "
                    "min/max rows are compared with the true extrema of the written bytes, the real validator must accept the output."),
@@ -90,7 +90,7 @@ REG["C17"] = {
 }
 
 REG["C14"] = {
-    "technique": "TLC model checking of Kitchen.tla (directory map, Invoke actions for colander/combine/chef, symbolic per-field terms; invariants AllValidInputs, NothingOverwritten, lemmas strain-all = identity and cook-then-combine adds one field) over all histories up to the bound + execution of every emitted history with the real tools, the real validator after every hop, every box compared with its term's value",
+    "technique": "TLC model checking of Kitchen.tla (directory map, Invoke actions for colander/combine/chef, symbolic per-field terms; invariants AllValidInputs, NothingOverwritten, lemmas strain-all = identity and cook-then-combine adds one field) over all histories up to the bound + execution of every emitted history with the real tools, the real validator after every hop, every box compared with its term's value + trace validation at scale: histories of real operations on large generated inputs and repository assets judged by spec/trace/OpTrace.tla with the same requirement operator",
     "level_text": ("All histories of length <=2 (thorough: <=3 exhaustively, 4 by TLC simulation) over the three writers with small argument sets, starting from two generated plotfiles on a common 2-level mesh with independent scattered layouts, "
                    "are enumerated by TLC and executed; each intermediate directory must be well-formed (independent parser), accepted by the real taste, carry the mesh/time/geometry of the source and hold bit-exactly the composed pure operations."),
     "level_note": _NOTE,
